@@ -109,8 +109,31 @@ func TestC10Worker(t *testing.T) {
 	names := probe.VerifFunctionNames()
 	calls := 0
 	var keys []string
+	envText := func() string {
+		e := os.Environ()
+		sort.Strings(e)
+		return strings.Join(e, "\x00")
+	}
 	run := func(script string, vars map[string]lang.Value, obj interface{}) {
-		defer func() { _ = recover() }()
+		envBefore := envText()
+		defer func() {
+			_ = recover()
+			// reading the environment is allowed, changing it is not
+			if now := envText(); now != envBefore {
+				marker("ENVCHANGED by " + clip(strings.ReplaceAll(script, "\n", " "), 150))
+				// put it back: one finding, not a different world for every later script
+				for _, kv := range strings.Split(envBefore, "\x00") {
+					if i := strings.Index(kv, "="); i > 0 {
+						os.Setenv(kv[:i], kv[i+1:])
+					}
+				}
+				for _, kv := range strings.Split(now, "\x00") {
+					if i := strings.Index(kv, "="); i > 0 && !strings.Contains("\x00"+envBefore, "\x00"+kv[:i+1]) {
+						os.Unsetenv(kv[:i])
+					}
+				}
+			}
+		}()
 		key := script
 		for _, k := range sortedKeys(vars) {
 			key += "|" + k + "=" + vars[k].Type()
@@ -381,6 +404,16 @@ func TestC10Worker(t *testing.T) {
 			}
 		}
 	}
+	// ... and the names its run time reads from the environment, as variables
+	for i, name := range []string{"TZ", "HOME", "PATH", "GODEBUG", "TMPDIR", "ZONEINFO"} {
+		marker(fmt.Sprintf("CALL switches env-named %d", i))
+		for _, val := range []string{"/tmp/c10-probe-file", "/etc/hostname", "Europe/Helsinki", ":/etc/localtime"} {
+			body := "return [hour(1700000000), weekday(1700000000), len(getenv(\"" + name + "\")), year(now())];"
+			run(name+" = \""+val+"\";\n"+body, nil, nil)
+			run(body, map[string]lang.Value{name: lang.Str(val)}, nil)
+			run("foreach "+name+" in [\""+val+"\"] { x = hour(0); }\n"+body, nil, map[string]interface{}{name: val})
+		}
+	}
 	marker("END switches")
 	// run-time faults, including Go run-time panics that Execute recovers
 	marker("BEGIN faults")
@@ -460,6 +493,9 @@ func auditLog(log string, zoneinfo string) (violations []string, inside int, mar
 			if i := strings.Index(args, `"C10-`); i >= 0 {
 				last = strings.TrimSuffix(strings.SplitN(args[i+1:], `\n`, 2)[0], `"`)
 				markers = append(markers, last)
+				if strings.HasPrefix(last, "C10-ENVCHANGED") {
+					violations = append(violations, "changes the environment of the process: "+last)
+				}
 			}
 			continue
 		}
